@@ -2981,6 +2981,52 @@ func (p *Posix) PutObject(ctx context.Context, po s3response.PutObjectInput) (s3
 		}
 	}
 
+	// Set the object tagging, legal hold and retention on the temp file
+	// before it is published, so that the object never exists without
+	// them (also not after a crash right behind the publication)
+	if tags != nil {
+		b, err := json.Marshal(tags)
+		if err != nil {
+			return s3response.PutObjectOutput{}, fmt.Errorf("marshal tags: %w", err)
+		}
+		err = p.meta.StoreAttribute(f.File(), *po.Bucket, *po.Key, tagHdr, b)
+		if err != nil {
+			return s3response.PutObjectOutput{}, fmt.Errorf("set tags: %w", err)
+		}
+	}
+
+	// Set object legal hold
+	if po.ObjectLockLegalHoldStatus == types.ObjectLockLegalHoldStatusOn {
+		err := p.isBucketObjectLockEnabled(*po.Bucket)
+		if err != nil {
+			return s3response.PutObjectOutput{}, err
+		}
+		err = p.meta.StoreAttribute(f.File(), *po.Bucket, *po.Key, objectLegalHoldKey, []byte{1})
+		if err != nil {
+			return s3response.PutObjectOutput{}, fmt.Errorf("set object legal hold: %w", err)
+		}
+	}
+
+	// Set object retention
+	if po.ObjectLockMode != "" {
+		err := p.isBucketObjectLockEnabled(*po.Bucket)
+		if err != nil {
+			return s3response.PutObjectOutput{}, err
+		}
+		retention := types.ObjectLockRetention{
+			Mode:            types.ObjectLockRetentionMode(po.ObjectLockMode),
+			RetainUntilDate: po.ObjectLockRetainUntilDate,
+		}
+		retParsed, err := json.Marshal(retention)
+		if err != nil {
+			return s3response.PutObjectOutput{}, fmt.Errorf("parse object lock retention: %w", err)
+		}
+		err = p.meta.StoreAttribute(f.File(), *po.Bucket, *po.Key, objectRetentionKey, retParsed)
+		if err != nil {
+			return s3response.PutObjectOutput{}, fmt.Errorf("set object retention: %w", err)
+		}
+	}
+
 	verifhook.Point("put.afterAttrs")
 	err = f.link()
 	if errors.Is(err, syscall.EEXIST) {
@@ -2994,46 +3040,8 @@ func (p *Posix) PutObject(ctx context.Context, po s3response.PutObjectInput) (s3
 	}
 
 	verifhook.Point("put.afterLink")
-	// Set object tagging
-	if tags != nil {
-		err := p.PutObjectTagging(ctx, *po.Bucket, *po.Key, tags)
-		if errors.Is(err, fs.ErrNotExist) {
-			return s3response.PutObjectOutput{
-				ETag:      etag,
-				VersionID: versionID,
-			}, nil
-		}
-		if err != nil {
-			return s3response.PutObjectOutput{}, err
-		}
-	}
-
 	verifhook.Point("put.afterTags")
-	// Set object legal hold
-	if po.ObjectLockLegalHoldStatus == types.ObjectLockLegalHoldStatusOn {
-		err := p.PutObjectLegalHold(ctx, *po.Bucket, *po.Key, "", true)
-		if err != nil {
-			return s3response.PutObjectOutput{}, err
-		}
-	}
-
 	verifhook.Point("put.afterLegalHold")
-	// Set object retention
-	if po.ObjectLockMode != "" {
-		retention := types.ObjectLockRetention{
-			Mode:            types.ObjectLockRetentionMode(po.ObjectLockMode),
-			RetainUntilDate: po.ObjectLockRetainUntilDate,
-		}
-		retParsed, err := json.Marshal(retention)
-		if err != nil {
-			return s3response.PutObjectOutput{}, fmt.Errorf("parse object lock retention: %w", err)
-		}
-		err = p.PutObjectRetention(ctx, *po.Bucket, *po.Key, "", true, retParsed)
-		if err != nil {
-			return s3response.PutObjectOutput{}, err
-		}
-	}
-
 	return s3response.PutObjectOutput{
 		ETag:              etag,
 		VersionID:         versionID,
